@@ -1,6 +1,5 @@
 SPECIFICATION Spec
-CONSTANTS MaxBr = 2 MaxN = 4 MaxRuns = 1
-  Kinds <- KindsQuick
-  BufSizes <- BufQuick
+CONSTANTS MaxRuns = 1
+  Scenarios <- ScQuick
 INVARIANT Emitted
 CHECK_DEADLOCK FALSE
